@@ -4,6 +4,7 @@
      updater: S  = pre_g := 1; synchronize_rcu(); post_g := 1   (g numbered per occurrence)
      with -DDYNREG (C15): R = rcu_register_thread(), U = rcu_unregister_thread() as scheduled operations; a program starting with '-' starts
      unregistered; threads leave as soon as their program ends (the registry changes while grace periods run)
+     W<t> = wait (spinning) until thread t has completed an R operation (the reader's exit then depends on a registration)
    Litmus violations are printed as "LITMUS ..." lines; the timing oracle and the refinement check work on the trace. */
 #ifdef FLAVOR_MB
 #define RCU_MB
@@ -19,6 +20,7 @@ static unsigned long pre[NG], post[NG]; static int ng_total;
 static char *prog[MAXTH]; static int nprog; static int gbase[MAXTH];
 static char tlsname[MAXTH][16]; static long updaters_left;
 extern int vs_membarrier_available;
+static unsigned long regdone[8];
 static void body(int t){
 	int reader = strchr(prog[t],'S') == 0; int g = gbase[t]; int depth = 0;
 	unsigned long vpost[NG], vpre[NG]; int have = 0;
@@ -40,7 +42,8 @@ static void body(int t){
 			if(depth) for(int i=0;i<ng_total;i++) if(vpost[i]==1 && vpre[i]==0) printf("LITMUS reader %d saw pre_%d=0 then post_%d=1 inside one section\n",t,i,i);
 			break;
 #ifdef DYNREG
-		case 'R': if(!registered){ vs_call("register",0); rcu_register_thread(); vs_ret("register",0); registered=1; } break;
+		case 'R': if(!registered){ vs_call("register",0); rcu_register_thread(); vs_ret("register",0); registered=1; CMM_STORE_SHARED(regdone[t],1); } break;
+		case 'W': { int o=p[1]-'0'; p++; vs_call("waitreg",o); while(!CMM_LOAD_SHARED(regdone[o])) caa_cpu_relax(); vs_ret("waitreg",o); } break;      /* an application-level dependency: go on only when thread o has registered */
 		case 'U': if(registered && !depth){ vs_call("unregister",0); rcu_unregister_thread(); vs_ret("unregister",0); registered=0; } break;
 #endif
 		case 'S': CMM_STORE_SHARED(pre[g],1); vs_call("sync",g); synchronize_rcu(); vs_ret("sync",g); CMM_STORE_SHARED(post[g],1); g++; break;
